@@ -76,6 +76,7 @@ struct Child {
 struct Sim {
   bool armed = false;
   bool gave_up = false; // a violation was recorded: the child has been killed, wrappers pass through
+  bool poisoned = false; // the code under test spins forever: make poll/read/write fail hard so it leaves its loop
   uint64_t clock = 0;
   uint64_t calls = 0; // wrapped parent calls
   uint64_t calls_after_child_exit = 0;
@@ -166,6 +167,7 @@ void give_up() {
 void sim_fail(const string& cls, const string& key, const string& msg) {
   fail_soft(cls, key, msg);
   give_up();
+  if (cls.rfind("liveness/", 0) == 0) g.poisoned = true;
 }
 
 bool child_ready_to_step() {
@@ -367,8 +369,16 @@ int __wrap_pipe(int fds[2]) {
 
 int __wrap_poll(struct pollfd* pfds, nfds_t n, int timeout_ms) {
   if (!g.armed) return __real_poll(pfds, n, timeout_ms);
+  if (g.poisoned) {
+    errno = EIO; // ends the endless loop of the code under test through its own error path
+    return -1;
+  }
   if (g.gave_up) return __real_poll(pfds, n, 0);
   sched_point("poll", n);
+  if (g.poisoned) {
+    errno = EIO;
+    return -1;
+  }
   if (g.gave_up) return __real_poll(pfds, n, 0);
   if (g.eintr_den && chance(1, g.eintr_den, "poll.eintr")) {
     VS_FAULT("EINTR@poll");
@@ -405,6 +415,10 @@ int __wrap_poll(struct pollfd* pfds, nfds_t n, int timeout_ms) {
 }
 
 ssize_t __wrap_read(int fd, void* buf, size_t n) {
+  if (g.armed && g.poisoned && g.parent_pipe_fds.count(fd)) {
+    errno = EIO;
+    return -1;
+  }
   if (!g.armed || g.gave_up || !g.parent_pipe_fds.count(fd)) return __real_read(fd, buf, n);
   sched_point("read", n * 100 + fd_index(fd));
   if (g.gave_up) return __real_read(fd, buf, n);
@@ -451,6 +465,10 @@ ssize_t __wrap_read(int fd, void* buf, size_t n) {
 }
 
 ssize_t __wrap_write(int fd, const void* buf, size_t n) {
+  if (g.armed && g.poisoned && g.parent_pipe_fds.count(fd)) {
+    errno = EIO;
+    return -1;
+  }
   if (!g.armed || g.gave_up || !g.parent_pipe_fds.count(fd)) return __real_write(fd, buf, n);
   sched_point("write", n * 100 + fd_index(fd));
   if (g.gave_up) return __real_write(fd, buf, n);
